@@ -16,7 +16,8 @@ from ..prog import DIALECT_CLASSES, registry
 PROP = "C18"
 LEVEL = "exploration"
 RULE = ("exhaustive 7-tuples over the digit-pattern alphabet {0,1,5,10,100,1005} x sign of the leading component, "
-        "quarters/weeks alone, plus seeded random large values; each rendered under the six dialect contexts, "
+        "quarters/weeks alone, plus seeded random large values; constructor called with keywords, positionally (documented order) "
+        "and with each dialect= argument; each rendered under the six dialect contexts, "
         "bare and embedded in a SELECT; a case is non-trivial when at least two components are non-zero or the value "
         "is negative/quarter/week; distinct = distinct (argument tuple)")
 ASSUMPTIONS = [
